@@ -5,34 +5,35 @@ import H2V.Lemmas.ConnCountsPClone
 -/
 namespace H2V.Lemmas.ConnCountsP
 open H2V H2V.Model H2V.Model.Conn
+variable {ρ : Bool}
 attribute [local irreducible] wrapSubU32 wrapSubUsize
 
 theorem qPush_ev (s : Streams) (q : QName) (k : Nat) (h1 : q ≠ .pendingResetExpired) (h2 : q ≠ .pendingOpen) :
-    Ev s (s.qPush q k).1 := .qPush q k h1 h2
+    EvB ρ s (s.qPush q k).1 := .qPush q k h1 h2
 theorem qPushFront_ev (s : Streams) (q : QName) (k : Nat) (h1 : q ≠ .pendingResetExpired) (h2 : q ≠ .pendingOpen) :
-    Ev s (s.qPushFront q k).1 := .qPushFront q k h1 h2
+    EvB ρ s (s.qPushFront q k).1 := .qPushFront q k h1 h2
 theorem qPop_ev (s : Streams) (q : QName) (h1 : q ≠ .pendingResetExpired) (h2 : q ≠ .pendingOpen) :
-    Ev s (s.qPop q).1 := .qPop q h1 h2
+    EvB ρ s (s.qPop q).1 := .qPop q h1 h2
 
-theorem scheduleSend_ev (s : Streams) (id : Nat) : Ev s (s.scheduleSend id) := by
+theorem scheduleSend_ev (s : Streams) (id : Nat) : EvB ρ s (s.scheduleSend id) := by
   unfold Streams.scheduleSend
   ev_auto
 
-theorem queueFrame_ev (s : Streams) (id : Nat) (f : SFrame) (hf : SFrame.isPP f = false) : Ev s (s.queueFrame id f) := by
+theorem queueFrame_ev (s : Streams) (id : Nat) (f : SFrame) (hf : SFrame.isPP f = false) : EvB ρ s (s.queueFrame id f) := by
   unfold Streams.queueFrame
   refine .trans (modStream_ev' _ _ _ ?_) (scheduleSend_ev _ _)
   exact setPendingSend_same' _ _ (mem_append_single_pp hf)
 
-theorem queueOpen_ev (s : Streams) (id : Nat) (h : s.counts.isLocalInit (s.stream id).id = true) : Ev s (s.queueOpen id) :=
+theorem queueOpen_ev (s : Streams) (id : Nat) (h : s.counts.isLocalInit (s.stream id).id = true) : EvB ρ s (s.queueOpen id) :=
   .qPushOpen id h
 
-theorem tryAssignCapacity_ev (s : Streams) (id : Nat) : Ev s (s.tryAssignCapacity id) := by
+theorem tryAssignCapacity_ev (s : Streams) (id : Nat) : EvB ρ s (s.tryAssignCapacity id) := by
   unfold Streams.tryAssignCapacity
   ev_auto
 
 /-- `transition_after` behind a piece of code, with the flag read before it -/
-theorem transitionAfter_after {s1 s2 : Streams} (k : Nat) (e : Ev s1 s2) :
-    Ev s1 (s2.transitionAfter k (s1.stream k).isPendingResetExpiration) :=
+theorem transitionAfter_after {s1 s2 : Streams} (k : Nat) (e : EvB ρ s1 s2) :
+    EvB ρ s1 (s2.transitionAfter k (s1.stream k).isPendingResetExpiration) :=
   .trans e (transitionAfter_ev _ _ _ (fun hb => e.mono.resetAt k hb))
 
 -- ===================================================================== state transitions never go back to an unopened state
@@ -111,7 +112,7 @@ macro_rules | `(tactic| ev_side) => `(tactic| (intro _ _; exact setPendingSend_s
 
 -- ===================================================================== prioritize.rs, continued
 
-theorem assignConnectionCapacityLoop_ev : ∀ (fuel : Nat) (s : Streams), Ev s (Streams.assignConnectionCapacityLoop fuel s) := by
+theorem assignConnectionCapacityLoop_ev : ∀ (fuel : Nat) (s : Streams), EvB ρ s (Streams.assignConnectionCapacityLoop fuel s) := by
   intro fuel
   induction fuel with
   | zero => intro s; exact .refl _
@@ -122,46 +123,46 @@ theorem assignConnectionCapacityLoop_ev : ∀ (fuel : Nat) (s : Streams), Ev s (
     · split
       · next s' heq => exact .of_fst_eq heq (qPop_ev _ _ (by decide) (by decide))
       · next s' id heq =>
-        have e0 : Ev s s' := .of_fst_eq heq (qPop_ev _ _ (by decide) (by decide))
+        have e0 : EvB ρ s s' := .of_fst_eq heq (qPop_ev _ _ (by decide) (by decide))
         dsimp only
         split
         · exact .trans e0 (ih _)
         · exact .trans e0 (.trans (transitionAfter_after id (tryAssignCapacity_ev s' id)) (ih _))
     · exact .refl _
 
-theorem assignConnectionCapacity_ev (s : Streams) (inc : Nat) : Ev s (s.assignConnectionCapacity inc) := by
+theorem assignConnectionCapacity_ev (s : Streams) (inc : Nat) : EvB ρ s (s.assignConnectionCapacity inc) := by
   unfold Streams.assignConnectionCapacity
   ev_auto
 
-theorem reserveCapacity_ev (s : Streams) (id cap : Nat) : Ev s (s.reserveCapacity id cap) := by
+theorem reserveCapacity_ev (s : Streams) (id cap : Nat) : EvB ρ s (s.reserveCapacity id cap) := by
   unfold Streams.reserveCapacity
   ev_auto
 
-theorem prioSendData_ev (s : Streams) (id len : Nat) (eos : Bool) : Ev s (s.prioSendData id len eos).1 := by
+theorem prioSendData_ev (s : Streams) (id len : Nat) (eos : Bool) : EvB ρ s (s.prioSendData id len eos).1 := by
   unfold Streams.prioSendData
   ev_auto
 
-theorem prioRecvStreamWindowUpdate_ev (s : Streams) (id inc : Nat) : Ev s (s.prioRecvStreamWindowUpdate id inc).1 := by
+theorem prioRecvStreamWindowUpdate_ev (s : Streams) (id inc : Nat) : EvB ρ s (s.prioRecvStreamWindowUpdate id inc).1 := by
   unfold Streams.prioRecvStreamWindowUpdate
   ev_auto
 
-theorem recvConnectionWindowUpdate_ev (s : Streams) (inc : Nat) : Ev s (s.recvConnectionWindowUpdate inc).1 := by
+theorem recvConnectionWindowUpdate_ev (s : Streams) (inc : Nat) : EvB ρ s (s.recvConnectionWindowUpdate inc).1 := by
   unfold Streams.recvConnectionWindowUpdate
   ev_auto
 
-theorem reclaimAllCapacity_ev (s : Streams) (id : Nat) : Ev s (s.reclaimAllCapacity id) := by
+theorem reclaimAllCapacity_ev (s : Streams) (id : Nat) : EvB ρ s (s.reclaimAllCapacity id) := by
   unfold Streams.reclaimAllCapacity
   ev_auto
 
-theorem reclaimReservedCapacity_ev (s : Streams) (id : Nat) : Ev s (s.reclaimReservedCapacity id) := by
+theorem reclaimReservedCapacity_ev (s : Streams) (id : Nat) : EvB ρ s (s.reclaimReservedCapacity id) := by
   unfold Streams.reclaimReservedCapacity
   ev_auto
 
-theorem clearQueue_ev (s : Streams) (id : Nat) : Ev s (s.clearQueue id) := by
+theorem clearQueue_ev (s : Streams) (id : Nat) : EvB ρ s (s.clearQueue id) := by
   unfold Streams.clearQueue
   ev_auto
 
-theorem clearPendingCapacity_ev : ∀ (fuel : Nat) (s : Streams), Ev s (Streams.clearPendingCapacity fuel s) := by
+theorem clearPendingCapacity_ev : ∀ (fuel : Nat) (s : Streams), EvB ρ s (Streams.clearPendingCapacity fuel s) := by
   intro fuel
   induction fuel with
   | zero => intro s; exact .refl _
@@ -171,10 +172,10 @@ theorem clearPendingCapacity_ev : ∀ (fuel : Nat) (s : Streams), Ev s (Streams.
     split
     · next s' heq => exact .of_fst_eq heq (qPop_ev _ _ (by decide) (by decide))
     · next s' id heq =>
-      have e0 : Ev s s' := .of_fst_eq heq (qPop_ev _ _ (by decide) (by decide))
+      have e0 : EvB ρ s s' := .of_fst_eq heq (qPop_ev _ _ (by decide) (by decide))
       exact .trans e0 (.trans (transitionAfter_after id (.refl _)) (ih _))
 
-theorem clearPendingOpen_ev : ∀ (fuel : Nat) (s : Streams), Ev s (Streams.clearPendingOpen fuel s) := by
+theorem clearPendingOpen_ev : ∀ (fuel : Nat) (s : Streams), EvB ρ s (Streams.clearPendingOpen fuel s) := by
   intro fuel
   induction fuel with
   | zero => intro s; exact .refl _
@@ -184,10 +185,10 @@ theorem clearPendingOpen_ev : ∀ (fuel : Nat) (s : Streams), Ev s (Streams.clea
     split
     · next s' heq => exact .of_fst_eq heq .qPopOpen
     · next s' id heq =>
-      have e0 : Ev s s' := .of_fst_eq heq .qPopOpen
+      have e0 : EvB ρ s s' := .of_fst_eq heq .qPopOpen
       exact .trans e0 (.trans (transitionAfter_after id (.refl _)) (ih _))
 
-theorem clearPendingSend_ev : ∀ (fuel : Nat) (s : Streams), Ev s (Streams.clearPendingSend fuel s) := by
+theorem clearPendingSend_ev : ∀ (fuel : Nat) (s : Streams), EvB ρ s (Streams.clearPendingSend fuel s) := by
   intro fuel
   induction fuel with
   | zero => intro s; exact .refl _
@@ -197,7 +198,7 @@ theorem clearPendingSend_ev : ∀ (fuel : Nat) (s : Streams), Ev s (Streams.clea
     split
     · next s' heq => exact .of_fst_eq heq (qPop_ev _ _ (by decide) (by decide))
     · next s' id heq =>
-      have e0 : Ev s s' := .of_fst_eq heq (qPop_ev _ _ (by decide) (by decide))
+      have e0 : EvB ρ s s' := .of_fst_eq heq (qPop_ev _ _ (by decide) (by decide))
       dsimp only
       refine .trans e0 (.trans (transitionAfter_after id ?_) (ih _))
       split
@@ -205,8 +206,8 @@ theorem clearPendingSend_ev : ∀ (fuel : Nat) (s : Streams), Ev s (Streams.clea
       · exact .refl _
 
 /-- what follows the `match stream.pending_send.pop_front(buffer)` in `pop_frame` -/
-theorem popFrame_finish {s' s2 : Streams} (id : Nat) (c : Prop) [Decidable c] (e : Ev s' s2) :
-    Ev s' ((if c then (s2.qPush .pendingSend id).1 else s2).transitionAfter id (s'.stream id).isPendingResetExpiration) := by
+theorem popFrame_finish {s' s2 : Streams} (id : Nat) (c : Prop) [Decidable c] (e : EvB ρ s' s2) :
+    EvB ρ s' ((if c then (s2.qPush .pendingSend id).1 else s2).transitionAfter id (s'.stream id).isPendingResetExpiration) := by
   refine transitionAfter_after id (.trans e ?_)
   split
   · exact qPush_ev _ _ _ (by decide) (by decide)
@@ -233,14 +234,14 @@ local macro "pf_data_rest" : tactic => `(tactic|
          have := hsd ((s'.modStream id fun st => { st with pendingSend := rest }).stream id)
            (usizeAsU32 (min (min sz maxLen) (s'.stream id).sendFlow.available.asSize)) (s'.modStream id fun st => { st with pendingSend := rest }).prio.maxBufferSize
          rw [hp] at this; exact this
-       have e1 : Ev s' (s'.modStream id fun st => { st with pendingSend := rest }) := modStream_ev' _ _ _ (popRest_same hps)
-       have e2 := setStream_ev _ id st' hsame
+       have e1 : EvB ρ s' (s'.modStream id fun st => { st with pendingSend := rest }) := modStream_ev' _ _ _ (popRest_same hps)
+       have e2 := setStream_ev (ρ := ρ) _ id st' hsame
        refine .trans e1 (.trans e2 ?_)
        ev_auto))
 
 /-- `pop_frame` with `Stream::send_data` abstracted (see `ConnCountsPClone.lean`) -/
 theorem popFrameC_ev (sd : Stream → Nat → Nat → Stream × List String × Bool) (hsd : ∀ x a b, Same x (sd x a b).1) :
-    ∀ (fuel : Nat) (s : Streams) (maxLen : Nat), Ev s (popFrameC sd fuel s maxLen).1 := by
+    ∀ (fuel : Nat) (s : Streams) (maxLen : Nat), EvB ρ s (popFrameC sd fuel s maxLen).1 := by
   intro fuel
   induction fuel with
   | zero => intro s _; rw [popFrameC_zero]; exact .refl _
@@ -250,7 +251,7 @@ theorem popFrameC_ev (sd : Stream → Nat → Nat → Stream × List String × B
     split
     · next s' heq => exact .of_fst_eq heq (qPop_ev _ _ (by decide) (by decide))
     · next s' id heq =>
-      have e0 : Ev s s' := .of_fst_eq heq (qPop_ev _ _ (by decide) (by decide))
+      have e0 : EvB ρ s s' := .of_fst_eq heq (qPop_ev _ _ (by decide) (by decide))
       refine .trans e0 ?_
       dsimp only
       split
@@ -285,14 +286,14 @@ theorem popFrameC_ev (sd : Stream → Nat → Nat → Stream × List String × B
         · exact popFrame_finish id _ (modStreamW_ev' _ _ _ (setReset_same _ _ _))
         · exact .trans (transitionAfter_after id (.refl _)) (ih _ _)
 
-theorem popFrame_ev (fuel : Nat) (s : Streams) (maxLen : Nat) : Ev s (Streams.popFrame fuel s maxLen).1 := by
+theorem popFrame_ev (fuel : Nat) (s : Streams) (maxLen : Nat) : EvB ρ s (Streams.popFrame fuel s maxLen).1 := by
   rw [popFrameC.eq]; exact popFrameC_ev _ sendData_same fuel s maxLen
 
-theorem popPendingOpen_ev (s : Streams) : Ev s s.popPendingOpen.1 := by
+theorem popPendingOpen_ev (s : Streams) : EvB ρ s s.popPendingOpen.1 := by
   unfold Streams.popPendingOpen
   split
   · next hc =>
-    have h := Ev.popOpen (s := s) hc
+    have h := EvB.popOpen (ρ := ρ) (s := s) hc
     split
     · next s' id heq =>
       rw [heq] at h
